@@ -7,7 +7,9 @@ LEVEL = "model_checking"
 RULE = ("documents generated from segments (7 field layouts x position, 1-2 paragraphs, 3 separators, leading/trailing "
         "comments, final newline present or absent); states = distinct model documents reached, transitions = one "
         "set/add/delete applied to model and implementation, traces = complete histories replayed from a fresh parse "
-        "in tree mode; non-trivial = states other than the initial document")
+        "in tree mode; non-trivial = states other than the initial document.  Route units: the same, with each assignment / "
+        "deletion made through another public entry point (5th element of a set, 4th of a del operation) and every way of "
+        "reading and dumping compared after each step; origin units: the file object obtained from another kind of input")
 BUDGET = {"quick": 240, "thorough": 3000}
 NL = "strict"
 
@@ -16,7 +18,20 @@ def bounds(tier):
     return {"documents": len(docs(0)), "values": VALUES,
             "tree_depth": 2 if tier == "quick" else 3, "graph_depth": 3 if tier == "quick" else 4,
             "quick_tree": "level 2 extends histories whose first operation is a deletion or uses a core value %r; every operation is tried at both levels" % (CORE_VALUES,),
-            "graph_alphabet": "values x, 'x\\n y' only; no case-variant spelling"}
+            "graph_alphabet": "values x, 'x\\n y' only; no case-variant spelling",
+            "routes": "every other public way of assigning / deleting (%s; %s; clear()) with values %r on every field, a new "
+                      "field and an absent field of every document at depth 1 (each also with a value that must be refused), "
+                      "and at depth 2 before and after every default-route operation of the small alphabet on %d documents "
+                      "(thorough: all route values, the whole small alphabet); "
+                      "after every such step the values returned by pop/popitem/setdefault, every way of reading the paragraphs "
+                      "(get, items, values, dict(), len, iteration, membership, configured views incl. the raw one, the field "
+                      "elements' own text) and every way of dumping (dump(fd), convert_to_text, per-paragraph dumps) are "
+                      "compared with the model" % (", ".join(_doc.SET_HOWS[1:]), ", ".join(_doc.DEL_HOWS[1:]), ROUTE_VALUES,
+                                                     len(route_docs2(0))),
+            "origins": "the file object obtained from %s instead of a list of str lines: the small alphabet at depth 1 "
+                       "(depth 2 in the thorough tier) on every document; 'built' = paragraphs made with from_dict and appended "
+                       "to new_empty_file(), on %d canonical documents with the full alphabet at depth 2" % (
+                           ", ".join(_doc.ORIGINS[1:-1]), len(built_docs(0)))}
 
 
 def assumptions():
@@ -26,7 +41,15 @@ def assumptions():
             "deleting the only field of a paragraph is outside the domain",
             "characters Python treats as whitespace or line boundaries but the control-file format does not define (NBSP, VT, "
             "FF, U+0085, U+2028...) are not used in assigned values (a value containing U+2028 is refused with ValueError)",
-            "the model's own field reader defines 'value' (first line trimmed, comment lines dropped)"]
+            "the model's own field reader defines 'value' (first line trimmed, comment lines dropped)",
+            "routes: set_field_to_simple_value / set_field_from_raw_string are used with their default comment handling or "
+            "preserve_original_field_comment=True (False and field_comment= are documented to replace the field's comment); "
+            "configured_view(preserve_field_comments_on_field_updates=False) likewise is not used",
+            "origins: lines given without their newlines ('bare-lines') stand for a terminated document of two or more lines",
+            "routes: set_kvpair_element() with a foreign element is the building block below the dict interface (it replaces "
+            "the element, comment included) and is not driven directly",
+            "routes: setdefault() on a present field must change nothing and return the current value; pop(k, default) on an "
+            "absent field is outside the statement"]
 
 
 VALUES = ["x", "", " pad ", "x\n y", "x\n y\n\tz", "\n y", "\n y\n z", "x\n y \t", "x\n", "x\n y\n"]
@@ -165,6 +188,71 @@ def large_docs(seed):
     return [d1, strip_final_newline(d1)]
 
 
+ROUTE_VALUES = ["x", "", " pad ", "x\n y", "\n y", "x\n y\n"]
+
+
+def ops_routes(doc, values=None, hows=None):
+    """the assignments / deletions of the statement through every other public entry point"""
+    values = ROUTE_VALUES if values is None else values
+    ops = []
+    for pi, par in enumerate(_doc.pars(doc)):
+        seen = []
+        for f in par:
+            if f.name.lower() in seen:
+                continue
+            seen.append(f.name.lower())
+        keys = [f.name for f in par] + (["N"] if "n" not in seen else [])
+        for how in _doc.SET_HOWS[1:]:
+            if hows is not None and how not in hows:
+                continue
+            for k in keys:
+                for val in values:
+                    ops.append(("set", pi, k, val, how))
+            if par:
+                ops.append(("set", pi, par[-1].name.swapcase(), "y", how))
+                ops.append(("set", pi, par[-1].name, _doc.INVALID_VALUES[0], how))
+                ops.append(("set", pi, "N", _doc.INVALID_VALUES[1], how))
+        for how in _doc.DEL_HOWS[1:]:
+            if hows is not None and how not in hows:
+                continue
+            for f in par:
+                ops.append(("del", pi, f.name, how))
+            if par:
+                ops.append(("del", pi, par[0].name.swapcase(), how))
+            ops.append(("del", pi, "Zz-absent", how))
+        if hows is None:
+            ops.append(("clear", pi))
+    return ops
+
+
+def ops_routes2(doc):
+    return ops_routes(doc, values=("x", "x\n y"))
+
+
+def ops_small2(doc):
+    return [op for op in ops_small(doc) if op[0] == "del" or op[3] != "\n y"]
+
+
+def route_docs2(seed):
+    """documents of the depth-2 route pass: one paragraph with a plain, a two-line and a commented field, two
+    paragraphs with a free comment between them - each with and without the final newline"""
+    v = core.rep(seed, ["v", "q", "1.0", "é"])
+    w = core.rep(seed, ["w", "r r", "(>= 2)", "ü"])
+    plain = lambda n: (n, "", "%s: %s\n" % (n, v))
+    ds = [[("par", [plain("A"), layouts("Bb", v, w)[3], layouts("C", v, w)[4]])],
+          [("par", [plain("A"), layouts("Bb", v, w)[5]]), ("raw", "\n#free\n\n"), ("par", [plain("C")])]]
+    return [x for d in ds for x in (d, strip_final_newline(d))]
+
+
+def built_docs(seed):
+    v = core.rep(seed, ["v", "q", "1.0", "é"])
+    w = core.rep(seed, ["w", "r r", "(>= 2)", "ü"])
+    plain = lambda n: (n, "", "%s: %s\n" % (n, v))
+    return [[("par", [plain("A"), ("Bb", "", "Bb: %s\n %s\n" % (v, w)), plain("C")])],
+            [("par", [plain("A")])],
+            [("par", [plain("A"), plain("Bb")]), ("raw", "\n"), ("par", [plain("C"), ("D", "", "D: %s\n %s\n" % (v, w))])]]
+
+
 CORE_VALUES = ("x", "", "x\n y", "\n y", "x\n y \t", "t1", "y", _doc.INVALID_VALUES[0])
 
 
@@ -178,13 +266,23 @@ def units(tier, seed):
     out += [{"doc": d, "i": 2000 + i, "large": True} for i, d in enumerate(large_docs(seed))]
     cs = sweep_chars()
     out += [{"sweep": cs[i:i + 16], "i": 1000 + i} for i in range(0, len(cs), 16)]
+    out += [{"routes": d, "i": 3000 + i} for i, d in enumerate(docs(seed))]
+    out += [{"routes2": d, "i": 4000 + i, "first": first} for i, d in enumerate(route_docs2(seed))
+            for first in ("route", "default")]
+    out += [{"origin": o, "docs": [d for j, d in enumerate(docs(seed)) if j % 4 == k], "i": 5000 + 10 * n + k}
+            for n, o in enumerate(_doc.ORIGINS[1:-1]) for k in range(4)]
+    out += [{"origin": "built", "docs": [d], "i": 6000 + i} for i, d in enumerate(built_docs(seed))]
     return out
 
 
 def unit_cost(u, tier):
     if "sweep" in u or u.get("large"):
         return 1
-    return sum(len(it[1]) for it in u["doc"] if it[0] == "par") ** 2
+    if "routes2" in u:
+        return 30
+    if "origin" in u:
+        return 9
+    return sum(len(it[1]) for it in u.get("doc", u.get("routes")) if it[0] == "par") ** 2
 
 
 def run_sweep(part, chars):
@@ -214,6 +312,29 @@ def run_unit(u, tier, seed):
     part = core.Part()
     if "sweep" in u:
         return run_sweep(part, u["sweep"])
+    if "routes" in u:
+        base = {"doc": u["routes"], "route": {"wide": True}}
+        _doc.explore(part, u["routes"], ops_routes, 1, 0, NL, base)
+        part.sample(dict(base, history=[ops_routes(_doc.from_spec(u["routes"]))[7]]))
+        return part
+    if "routes2" in u:
+        base = {"doc": u["routes2"], "route": {"wide": True}}
+        # (thorough: the full value alphabet of the routes and of the default-route operations, still two levels)
+        r, sm = (ops_routes2, ops_small2) if tier == "quick" else (ops_routes, ops_small)
+        if u["first"] == "route":
+            _doc.explore(part, u["routes2"], r, 2, 0, NL, base, ops2_fn=sm)
+        else:
+            _doc.explore(part, u["routes2"], sm, 2, 0, NL, base, ops2_fn=r)
+        return part
+    if "origin" in u:
+        for d in u["docs"]:
+            base = {"doc": d, "route": {"origin": u["origin"], "wide": True}}
+            if u["origin"] == "built":
+                _doc.explore(part, d, ops_full, 2, 0, NL, base, extend=extend_quick if tier == "quick" else None)
+            else:
+                _doc.explore(part, d, ops_small, 1 if tier == "quick" else 2, 0, NL, base)
+        part.sample(dict(base, history=[ops_small(_doc.from_spec(u["docs"][0]))[0]]))
+        return part
     td, gd = (2, 3) if tier == "quick" else (3, 4)
     base = {"doc": u["doc"]}
     if u.get("large"):
@@ -224,13 +345,47 @@ def run_unit(u, tier, seed):
 
 
 def replay(case):
-    _d, bad = _doc.run_history(case["doc"], [tuple(op) for op in case["history"]], NL)
+    _d, bad = _doc.run_history(case["doc"], [tuple(op) for op in case["history"]], NL, case.get("route"))
     return bad
 
 
+_SET_PY = {"item": "p[{k}] = {v}", "update": "p.update({{{k}: {v}}})", "update-pairs": "p.update([({k}, {v})])",
+           "setdefault": "print(p.setdefault({k}, {v}))", "simple": "p.set_field_to_simple_value({k}, {v})",
+           "simple-keep": "p.set_field_to_simple_value({k}, {v}, preserve_original_field_comment=True)",
+           "raw": "p.set_field_from_raw_string({k}, {r})",
+           "raw-keep": "p.set_field_from_raw_string({k}, {r}, preserve_original_field_comment=True)",
+           "view": "p.configured_view()[{k}] = {v}",
+           "view-raw": "p.configured_view(auto_map_initial_line_whitespace=False, "
+                       "auto_map_final_newline_in_multiline_values=False)[{k}] = {r}",
+           "view-opts": "p.configured_view(discard_comments_on_read=False, auto_resolve_ambiguous_fields=False)[{k}] = {v}",
+           "view-no-final-newline": "p.configured_view(auto_map_final_newline_in_multiline_values=False)[{k}] = {v}  "
+                                    "# (a multi-line value is given with its final newline)",
+           "view-no-first-line-mapping": "p.configured_view(auto_map_initial_line_whitespace=False)[{k}] = {r}  "
+                                         "# (a multi-line value is given without its final newline)"}
+_DEL_PY = {"item": "del p[{k}]", "pop": "print(p.pop({k}))", "pop-default": "print(p.pop({k}, None))",
+           "remove": "p.remove_kvpair_element({k})", "view": "del p.configured_view()[{k}]",
+           "view-opts": "del p.configured_view(discard_comments_on_read=False, auto_resolve_ambiguous_fields=False)[{k}]",
+           "popitem": "print(p.popitem())"}
+
+
+def op_py(op):
+    op = tuple(op)
+    head = "p = ps[%d]; " % op[1]
+    if op[0] == "set":
+        return head + _SET_PY[_doc.how_of(op)].format(k=repr(op[2]), v=repr(op[3]), r=repr(_doc.raw_value(op[3])))
+    if op[0] == "tset":
+        return head + "p[p.get_kvpair_element(%r).field_token] = %r   # (the token object is obtained once per history)" % (op[2], op[3])
+    if op[0] == "del":
+        return head + _DEL_PY[_doc.how_of(op)].format(k=repr(op[2]))
+    if op[0] == "clear":
+        return head + "p.clear()"
+    return "# %r" % (op,)
+
+
 def repro_py(case):
+    origin = (case.get("route") or {}).get("origin", "str")
     return ("from debian._deb822_repro import parse_deb822_file\n"
-            "text = %r\nf = parse_deb822_file(text.splitlines(True))\nps = list(f)\n%s\nprint(repr(f.dump()))\n" % (
-                _doc.render(_doc.from_spec(case["doc"])),
-                "\n".join("ps[%d][%r] = %r" % (op[1], op[2], op[3]) if op[0] == "set" else "del ps[%d][%r]" % (op[1], op[2])
-                          for op in case["history"])))
+            "text = %r\n# file object obtained via %r (see mc/props/_doc.py parse_impl)\n"
+            "f = parse_deb822_file(text.splitlines(True))\nps = list(f)\n%s\nprint(repr(f.dump()))\n" % (
+                _doc.render(_doc.from_spec(case["doc"])), origin,
+                "\n".join("try:\n    %s\nexcept Exception as e: print(repr(e))" % op_py(op) for op in case["history"])))
